@@ -220,7 +220,7 @@ ASSUMPTIONS = {
 }
 NOT_DECIDED = {
  'C04': ['soundness of the search itself (mate-distance pruning, null move, quiescence, aspiration re-searches)'],
- 'C13': ['how probe bounds are merged into the search window (negaScout), root move filtering (TBProbe::getSearchMoves), Syzygy/Gaviota paths'],
+ 'C13': ['the search below a window narrowed by a probe bound, root move filtering (TBProbe::getSearchMoves), Syzygy/Gaviota paths'],
 }
 MUTANTS = [
     dict(name='tbDecide_bound_cut_too_early', file='lib/texellib/search.cpp', pattern=r'\(\(type == TType::T_GE\) && \(score >= beta\)\) \|\|', repl='((type == TType::T_GE) && (score > alpha)) ||', groups=['negaScout_tbDecide']),
